@@ -304,7 +304,9 @@ Fixpoint merge_latest (tx : list (N * pg)) (wl : list (N * pg)) : list (N * pg) 
    wal.offset, in write order; [commit] the size field of its commit frame. *)
 Definition op_commit_wal (s : st) (frames : list (N * pg)) (commit : N) : outcome * st :=
   let tx := sort_pages (last_versions frames []) [] in
-  let tx_nolock := filter (fun kv => negb (fst kv =? lockpg s)) tx in
+  (* neither the lock page nor a page beyond the size the commit frame leaves (written earlier in the transaction by a
+     cache spill, then truncated away) is part of the transaction file *)
+  let tx_nolock := filter (fun kv => negb (fst kv =? lockpg s) && (fst kv <=? commit)) tx in
   let new0 := map (fun kv => (fst kv, pg_h (snd kv))) tx_nolock in
   match truncated_pages s (commit + 1) (N.to_nat (pageN s)) new0 with
   | None => (Exited, s)
